@@ -1221,6 +1221,12 @@ func (vr *voterecords) countWithExpels(
 			continue
 		}
 
+		// NOTE the votes for the other ballot facts do not make the voteproof
+		// with these expels; the majority should be the fact of these expels.
+		if majority != nil && !isExpelsOfBallotFact(majority, wfacts) {
+			continue
+		}
+
 		vr.log.Debug().
 			Interface("point", vr.sp).
 			Uint("quorum", quorum).
@@ -1410,6 +1416,28 @@ func extractExpelsFromBallot(
 	m[2] = expels
 
 	return m, true
+}
+
+func isExpelsOfBallotFact(fact base.BallotFact, expelfacts []base.SuffrageExpelFact) bool {
+	w, ok := fact.(isaac.ExpelBallotFact)
+	if !ok {
+		return false
+	}
+
+	hs := w.ExpelFacts()
+	if len(hs) != len(expelfacts) {
+		return false
+	}
+
+	for i := range expelfacts {
+		if slices.IndexFunc(hs, func(h util.Hash) bool {
+			return h.Equal(expelfacts[i].Hash())
+		}) < 0 {
+			return false
+		}
+	}
+
+	return true
 }
 
 func isNewVoteproofWithSuffrageConfirmFunc(isSuffrageConfirm bool) func(isaac.LastPoint, base.Voteproof) bool {
